@@ -691,7 +691,28 @@ BVALUES = ['0', '1', '255', '256', '65535', '65536', '4294967295', '4294967296',
            '170141183460469231731687303715884105727', '170141183460469231731687303715884105728',
            '1.5', '1e10', '1e400', 'inf', '-inf', 'NaN', 'nan', '.5', '5.', '1_0', '0x10', ' 1', '1 ', 'true', 'false', 'True', 'TRUE', 't',
            '1.2.3.4', '1.2.3.04', '256.1.1.1', '1.2.3', '1.2.3.4.5', '0.0.0.0', '255.255.255.255', '::1', '::', '1::2', 'fe80::1', '1:2:3:4:5:6:7:8',
-           '1:2:3:4:5:6:7:8:9', '::ffff:1.2.3.4', 'g::1', '12', '٣', '１', 'é', 'infinity', '+inf', '1e', 'e1', '-', '--1', '+-1', '1.0e-3', '0.1E5']
+           '1:2:3:4:5:6:7:8:9', '::ffff:1.2.3.4', 'g::1', '12', '٣', '１', 'é', 'infinity', '+inf', '1e', 'e1', '-', '--1', '+-1', '1.0e-3', '0.1E5',
+           # the longest textual forms of the address types, and their neighbours
+           '0000:0000:0000:0000:0000:ffff:192.168.100.200', '1111:2222:3333:4444:5555:6666:123.123.123.123', 'ffff:ffff:ffff:ffff:ffff:ffff:ffff:ffff',
+           '1111:2222:3333:4444:5555:6666:1.2.3.4', '::ffff:255.255.255.255', '1111:2222:3333:4444:5555:6666:7777:255.255.255.255',
+           '0000:0000:0000:0000:0000:0000:0000:00000', '001.002.003.004', '255.255.255.2555', 'fe80::1%eth0', '1:2:3:4:5:6:7::', '::2:3:4:5:6:7:8']
+
+
+def random_address(r):
+    """address-shaped strings, valid and nearly valid, up to the longest textual forms"""
+    def quad():
+        return '.'.join(str(r.choice([0, 1, 9, 10, 99, 100, 199, 200, 255, 256, r.randrange(0, 300)])) for _ in range(r.choice([4, 4, 4, 3, 5])))
+    if r.random() < 0.3:
+        return quad()
+    n = r.choice([8, 8, 7, 6, 6, 5, 3, 9])
+    groups = [''.join(r.choice('0123456789abcdefABCDEF') for _ in range(r.choice([1, 2, 3, 4, 4, 4, 5]))) for _ in range(n)]
+    if r.random() < 0.4 and len(groups) > 2:
+        i = r.randrange(0, len(groups) - 1)
+        groups[i:i + r.choice([1, 2, 3])] = ['']
+    s = ':'.join(groups)
+    if r.random() < 0.4:
+        s = ':'.join(groups[:6]) + ':' + quad()
+    return s
 
 
 def scen_builtin(g, n):
@@ -703,7 +724,10 @@ def scen_builtin(g, n):
     digits = '0123456789+-.e:aif '
     for _ in range(n):
         name = r.choice(BUILTINS)
-        v = ''.join(r.choice(digits) for _ in range(r.randrange(1, 8)))
+        if name in ('ipv4', 'ipv6') and r.random() < 0.8:
+            v = random_address(r)
+        else:
+            v = ''.join(r.choice(digits) for _ in range(r.randrange(1, 8)))
         out.append('builtin %s %s' % (hx(name.encode()), hx(v.encode())))
     return out
 
